@@ -61,6 +61,8 @@ class Run:
     trusted: set = field(default_factory=set)
     bounded: dict = field(default_factory=dict)
     cross: dict = field(default_factory=dict)
+    frame_functions: set = field(default_factory=set)
+    frame_seconds: float = 0.0
     t0: float = field(default_factory=time.time)
 
     @property
@@ -210,7 +212,13 @@ def run_property(spec: PropertySpec, tier: str, seed: int, reg: Registry) -> Run
     # 3. extras (frame back end, property-level obligations built from the reports)
     for extra in spec.extras:
         try:
-            run.verdicts.extend(extra(run))
+            r = extra(run)
+            if hasattr(r, 'verdicts'):          # a FrameCheck
+                run.verdicts.extend(r.verdicts)
+                run.frame_functions |= set(r.functions)
+                run.frame_seconds += r.secs
+            else:
+                run.verdicts.extend(r)
         except Exception as e:
             run.errors.append(f'extra {getattr(extra, "__name__", extra)} crashed: {type(e).__name__}: {e}\n{traceback.format_exc()[-1500:]}')
     # 5. bounded stand-in (label B)
@@ -319,6 +327,17 @@ def replay_refutation(run: Run, name: str, vs: list):
     fn = name.split('::')[0]
     con = run.reg.get(fn)
     info = {'reproduced': False, 'how': 'none', 'solver_models': [_jsonable(v.model) for v in vs if v.status == 'refuted' and v.model][:3]}
+    if any(v.backend == 'frame' for v in vs):
+        # a frame obligation has no counter-model; the property's native witness builder (bounded run) is consulted
+        bf = run.bounded.get('failures', [])
+        if bf:
+            info.update(reproduced=True, how='native witness builder of this property (bounded run) found a failing case',
+                        inputs=_jsonable({k: v for k, v in bf[0].items() if k in ('scene', 'scenes', 'prms')}), observed=bf[0].get('what'),
+                        failed_clauses=[bf[0].get('obligation')], rerun=bf[0].get('rerun'))
+        else:
+            info['how'] = 'frame obligation refuted by the effect analysis; the native witness builder found no failing case'
+        info['frame_detail'] = [v.reason for v in vs if v.status == 'refuted'][:3]
+        return info
     if con is None or (con.native_call is None and con.native_oracle is None):
         info['how'] = 'no native adapter for this obligation'
         return info
@@ -486,6 +505,8 @@ def finish(run: Run, evidence_path: str, checker_cmd: str) -> int:
             {'function': q, 'file': os.path.relpath(rep.file, '/repo') if rep.file.startswith('/repo') else rep.file,
              'sha256': rep.sha256, 'lines': list(rep.lines), 'mode': rep.mode, 'paths': rep.paths,
              'bodies_interpreted': sorted(rep.interpreted)} for q, rep in run.reports.items()],
+        'functions_under_frame_contract': sorted(run.frame_functions),
+        'frame_analysis_s': round(run.frame_seconds, 3),
         'lemmas': list(spec.lemmas),
         'by_backend': by_backend, 'solver_s': round(solver_s, 3),
         'undecided': [{'obligation': n, 'reason': w[:300]} for n, w in undecided],
